@@ -25,7 +25,7 @@ func TestMain(m *testing.M) { ev.Main(m, "C18") }
 
 var subManifest = ev.Register("manifest", checkManifest)
 
-func openManifest(doc []byte, viaLink bool) (b *sourcebundle.Bundle, root string, err error, panicked any, cleanup func()) {
+func openManifest(doc []byte, viaLink bool, relative ...bool) (b *sourcebundle.Bundle, root string, err error, panicked any, cleanup func()) {
 	arena, cl := fsx.Scratch("c18-")
 	root = filepath.Join(arena, "bundle")
 	os.MkdirAll(root, 0755)
@@ -41,6 +41,14 @@ func openManifest(doc []byte, viaLink bool) (b *sourcebundle.Bundle, root string
 	os.WriteFile(filepath.Join(realRoot, "terraform-sources.json"), doc, 0644)
 	func() {
 		defer func() { panicked = recover() }()
+		if len(relative) > 0 && relative[0] {
+			// the directory is given by a relative name; the working directory changes afterwards
+			old, _ := os.Getwd()
+			os.Chdir(arena)
+			defer os.Chdir(old)
+			b, err = sourcebundle.OpenDir(filepath.Base(root))
+			return
+		}
 		b, err = sourcebundle.OpenDir(root)
 	}()
 	return b, root, err, panicked, cl
@@ -57,12 +65,15 @@ func checkManifest(d mgen.Doc) error {
 	if err := checkManifestAt(d, true); err != nil {
 		return fmt.Errorf("bundle directory named through a symlink: %v", err)
 	}
+	if err := checkManifestAt(d, false, true); err != nil {
+		return fmt.Errorf("bundle directory opened by a relative name: %v", err)
+	}
 	return nil
 }
 
-func checkManifestAt(d mgen.Doc, viaLink bool) error {
+func checkManifestAt(d mgen.Doc, viaLink bool, relative ...bool) error {
 	doc := d.Render()
-	b, root, err, panicked, cleanup := openManifest(doc, viaLink)
+	b, root, err, panicked, cleanup := openManifest(doc, viaLink, relative...)
 	defer cleanup()
 	if panicked != nil {
 		if ev.IsKnown("c19-opendir-version-panic") {
@@ -192,7 +203,7 @@ func checkInverse(b *sourcebundle.Bundle, root string, label any) error {
 		if !utf8.ValidString(dir) {
 			continue
 		}
-		for _, tail := range []string{"", "main.tf", "modules/a", "no/such/file.tf", "ünï/x", "with space/y z.tf", "caf\xe9.tf"} {
+		for _, tail := range []string{"", "main.tf", "modules/a", "no/such/file.tf", "ünï/x", "with space/y z.tf", "docs/what?.md", "a#b.tf", "%41/x%2Fy.tf", "caf\xe9.tf"} {
 			if !utf8.ValidString(tail) && ev.IsKnown("c18-non-utf8-file-name") {
 				// known finding: a file name that is not valid UTF-8 cannot be a sub-path
 				ev.Excluded("c18-non-utf8-file-name")
